@@ -292,3 +292,97 @@ func VerifC08_SetRelationsChangedSet() {
 	W.checkAll("after")
 	vreach("end")
 }
+
+// ---- batch operations with ONE observer registered alone: whether an observer fires must
+// not depend on which other observers are registered — in particular not on the shortcuts a
+// batch takes when some event type has no observers at all. Every (batch operation, observer
+// specification) pair over the relation shape; expected count per entity from the model.
+func VerifC08_BatchOpsSingleObserver() {
+	vConcreteValues = true
+	W := vShapeRel(1, 60, true, 0)
+	vConcreteValues = false
+	vTighten(W.w)
+	p1 := W.e[1].h
+	type spec struct {
+		evt EventType
+		c   int // observed component (-1: wildcard)
+	}
+	specs := [...]spec{
+		{OnRemoveRelations, cR1}, {OnRemoveRelations, -1}, {OnRemoveRelations, cR2},
+		{OnAddRelations, cR1}, {OnAddRelations, -1},
+		{OnRemoveEntity, -1}, {OnCreateEntity, -1},
+		{OnAddComponents, cB}, {OnAddComponents, -1},
+		{OnRemoveComponents, cA}, {OnRemoveComponents, -1},
+	}
+	sp := specs[vPick("observer", len(specs))]
+	var fired [vNE]int
+	unlocked, strangers := 0, 0
+	o := Observe(sp.evt)
+	switch sp.c {
+	case cR1:
+		o = o.For(C[vChild]())
+	case cR2:
+		o = o.For(C[vChild2]())
+	case cA:
+		o = o.For(C[vPos]())
+	case cB:
+		o = o.For(C[vVel]())
+	}
+	o.Do(func(e Entity) {
+		if !W.w.IsLocked() {
+			unlocked++
+		}
+		if j := W.indexOf(e); j >= 0 {
+			fired[j]++
+		} else {
+			strangers++
+		}
+	}).Register(W.w)
+	op := vPick("batch-op", 4)
+	var want [vNE]int
+	for j := 0; j < W.n; j++ {
+		m := &W.e[j]
+		if !m.alive || !m.has[cR1] {
+			continue
+		}
+		hit := sp.c == -1
+		switch op {
+		case 0: // retarget R1 -> p1: only entities whose target changes are affected
+			if m.tgt[0] != p1 && (sp.evt == OnRemoveRelations || sp.evt == OnAddRelations) && (hit || sp.c == cR1) {
+				want[j] = 1
+			}
+		case 1: // remove every entity with R1
+			if sp.evt == OnRemoveEntity || (sp.evt == OnRemoveRelations && (hit || sp.c == cR1 || (sp.c == cR2 && m.has[cR2]))) {
+				want[j] = 1
+			}
+		case 2: // add B where missing
+			if !m.has[cB] && sp.evt == OnAddComponents && (hit || sp.c == cB) {
+				want[j] = 1
+			}
+		case 3: // remove A where present
+			if m.has[cA] && sp.evt == OnRemoveComponents && (hit || sp.c == cA) {
+				want[j] = 1
+			}
+		}
+	}
+	vcheck("no-panic", !vpanics(func() {
+		switch op {
+		case 0:
+			NewMap1[vChild](W.w).SetRelationsBatch(NewFilter1[vChild](W.w).Batch(), nil, RelIdx(0, p1))
+		case 1:
+			W.w.RemoveEntities(NewFilter1[vChild](W.w).Batch(), nil)
+		case 2:
+			NewMap1[vVel](W.w).AddBatch(NewFilter1[vChild](W.w).Without(C[vVel]()).Batch(), &vVel{9})
+		case 3:
+			NewMap1[vPos](W.w).RemoveBatch(NewFilter2[vChild, vPos](W.w).Batch(), nil)
+		}
+	}))
+	ok := true
+	for j := 0; j < W.n; j++ {
+		ok = ok && fired[j] == want[j]
+	}
+	vcheck("fires-exactly-per-documented-predicate-when-registered-alone", ok)
+	vcheck("callbacks-locked-no-strangers", unlocked == 0 && strangers == 0)
+	vcheck("unlocked-afterwards", !W.w.IsLocked())
+	vreach("end")
+}
